@@ -12,7 +12,7 @@ PROPERTY = "C20"
 LEVEL = "exploration"
 RULE = (
     "Hypothesis grammar of STRL trees (Objective root; Min / Max / LessThan / Scale / Choose / WindowedChoose / MalleableChoose / Allocation, nesting as the Python "
-    "front-end builds them plus irregular shapes, occasional shared sub-expressions; <= 7 Choose leaves, 1-3 partitions of quantity 1-3, "
+    "front-end builds them plus irregular shapes, Max over strategy variants (own machine count and duration per option), congested single-partition shapes, occasional shared sub-expressions; <= 7 Choose leaves, 1-3 partitions of quantity 1-3, "
     "start times before / at / after `now`, durations 1-4) lowered by the repository's C++ code (built by the harness with a sequential "
     "TBB shim); the dumped MILP is rebuilt as GurobiSolver.cpp would and up to 30 solutions (solution pool, zero objective) plus the "
     "optimum are fed back through populateResults(). Oracle = own Python semantics of STRL (exhaustive evaluation of every leaf "
